@@ -131,6 +131,7 @@ def gen_cases(tier, seed):
                     tb["rows"] = [r for r in tb["rows"] if crng.random() < 0.4]
                 table.add_overlapping_cycles(crng, tb)
         yield {"id": k, "kind": "table", "table": tb, "poll_every": crng.choice((1, 1, 2, 3, 5, 1000)),
+               "interrupt_polls": crng.random() < 0.3,
                "iterative": rng.random() < 0.35, "db": rng.choice(("base", "base", "forget")),
                "root": 0, "sets": rng.choice((1, 2)), "rng_seed": rng.randrange(10 ** 6),
                "smallest": rng.random() < 0.5}
@@ -292,6 +293,10 @@ def run_dict(case):
 # --------------------------------------------------------------------------- table kind
 
 
+class _Interrupted(BaseException):
+    """Stands for Ctrl-C / a watchdog alarm inside a specification check."""
+
+
 def run_table(case):
     from comb_spec_searcher import CombinatorialSpecificationSearcher
     from comb_spec_searcher.exception import SpecificationNotFound
@@ -316,6 +321,24 @@ def run_table(case):
         seen_packets[0] += 1
         if st is not None and seen_packets[0] % every:
             return
+        if case.get("interrupt_polls") and seen_packets[0] % 3 == 1:
+            # a specification check interrupted inside the pruning (Ctrl-C, a watchdog), then asked again
+            from comb_spec_searcher.rule_db import base as dbmod
+
+            saved = dbmod.prune, dbmod.iterative_prune
+
+            def interrupted(*a, **k):
+                raise _Interrupted()
+
+            dbmod.prune = dbmod.iterative_prune = interrupted
+            m_ruledb._DEPTH[0] += 1
+            try:
+                searcher.has_specification()
+            except _Interrupted:
+                cx.count("c05.polls_interrupted_inside_pruning")
+            finally:
+                m_ruledb._DEPTH[0] -= 1
+                dbmod.prune, dbmod.iterative_prune = saved
         answers.add(bool(searcher.has_specification()))  # postcondition evaluated here
 
     m_search.attach(s, None, poll)
